@@ -152,15 +152,22 @@ def cut_loops(fn, specs, module=None):
     new = T().visit(fdef)
     ast.fix_missing_locations(tree)
     flags = 0
-    g = dict(fn.__globals__)
+    g = fn.__globals__          # the module's own namespace: later rebinding of module names is seen by the cut function
     import __future__
     for feat in ('annotations',):
         if fn.__code__.co_flags & getattr(__future__, feat).compiler_flag:
             flags |= getattr(__future__, feat).compiler_flag
+    private = f'__vfcut_{fdef.name}_{id(fn):x}'
+    rt_name = f'__vf_{id(fn):x}'
+    fdef.name = private
+    for n in ast.walk(tree):
+        if isinstance(n, ast.Name) and n.id == '__vf':
+            n.id = rt_name
+    ast.fix_missing_locations(tree)
     code = compile(tree, filename=f'<vf loop-cut of {fn.__module__}.{fn.__qualname__}>', mode='exec', flags=flags, dont_inherit=True)
-    g['__vf'] = _RT(specs, fn.__qualname__)
+    g[rt_name] = _RT(specs, fn.__qualname__)
     ns = {}
     exec(code, g, ns)
-    newfn = ns[fdef.name]
+    newfn = ns[private]
     newfn.__vf_source__ = ast.unparse(tree)
     return newfn
